@@ -1,9 +1,9 @@
 use crate::{
     self as simplesl, Error,
-    instruction::{ExecResult, Instruction, InstructionWithStr, unary_operation::UnaryOperation},
+    instruction::{Instruction, InstructionWithStr},
     stdlib::operators::{FLOAT_PRODUCT, INT_PRODUCT},
     unary_operator::UnaryOperator,
-    variable::{ReturnType, Type, Typed, Variable},
+    variable::{ReturnType, Type, Variable},
 };
 use lazy_static::lazy_static;
 use simplesl_macros::var_type;
@@ -23,25 +23,13 @@ pub fn create(array: InstructionWithStr) -> Result<Instruction, Error> {
             given: return_type,
         });
     }
-    Ok(UnaryOperation {
-        instruction: array.instruction,
-        op,
-    }
-    .into())
-}
-
-pub fn exec(var: Variable, static_type: &Type) -> ExecResult {
-    // see sum::exec: the reducer must be one that the static type of the operand admits
-    let return_type = var.as_type();
-    let int_iter = var_type!(() -> (bool, int));
-    let float_iter = var_type!(() -> (bool, float));
-    let int_admitted = int_iter.matches(static_type) || !float_iter.matches(static_type);
-    let product = if return_type.matches(&int_iter) && int_admitted {
-        Variable::from(INT_PRODUCT)
-    } else {
-        Variable::from(FLOAT_PRODUCT)
-    };
-    Ok(product.as_function().unwrap().exec_with_args(&[var])?)
+    Ok(super::plant(
+        array,
+        vec![
+            (var_type!(() -> (bool, int)), Variable::from(INT_PRODUCT)),
+            (var_type!(() -> (bool, float)), Variable::from(FLOAT_PRODUCT)),
+        ],
+    ))
 }
 
 #[cfg(test)]
